@@ -1,6 +1,10 @@
 // ===== TRUSTED: assumed specifications of dependencies (T-bstr / T-memchr / T-std) =====
 // Each item below is an assumption.  It restates upstream documentation.
 
+// Verus does not support std's assert_eq! (it goes through core::panicking::assert_failed);
+// `assert_eq!(a, b)` is read as `assert!(a == b)`, which Verus turns into a proof obligation.
+macro_rules! assert_eq { ($a:expr, $b:expr $(,)?) => { assert!($a == $b) }; }
+
 // `log::trace!` / `log::debug!`: assumed to have no effect on results.
 pub mod log {
     macro_rules! trace_ { ($($t:tt)*) => {}; }
@@ -17,6 +21,7 @@ use crate::*;
 pub trait ByteSlice {
     fn find_byte(&self, byte: u8) -> Option<usize>;
     fn rfind_byte(&self, byte: u8) -> Option<usize>;
+    fn as_bytes_mut(&mut self) -> &mut [u8];
 }
 
 impl ByteSlice for [u8] {
@@ -28,6 +33,14 @@ impl ByteSlice for [u8] {
                 Some(k) => k < self@.len() && self@[k as int] == byte
                     && forall|i: int| 0 <= i < k ==> self@[i] != byte,
             },
+    {
+        unimplemented!()
+    }
+
+    // bstr: "Returns this byte string as an ordinary mutable slice" (identity on [u8])
+    #[verifier::external_body]
+    fn as_bytes_mut(&mut self) -> (r: &mut [u8])
+        ensures r@ == old(self)@, final(self)@ == final(r)@,
     {
         unimplemented!()
     }
